@@ -12,6 +12,7 @@ from fractions import Fraction
 
 from . import model as M
 from .core import HarnessError, import_library
+from .core import Violation as core_Violation
 
 NSLOTS = 3
 BAD = {"str": "abc", "none": None, "list": [0, 1], "dict": {1: 1}, "cplx": 1j}
@@ -555,8 +556,26 @@ class KVEngine:
                 ctx.fail("query-mismatch", "span-mult", "at %s: span=%r mult=%r valid=%r, expected %d/%d/True"
                          % (M.enc(fx), s, mu, va, M.kv_span(L, fx), M.kv_mult(L, fx)))
         width = L[-1] - L[0]
-        for fx in (L[0] - width / 3 - 1, L[-1] + width / 7 + Fraction(1, 2)):
-            node = float(fx) if isf else fx
+        eps = Fraction(1, 10 ** 20)
+        # just inside the ends (exact rational nodes, whatever the knot class): valid, first / last span
+        for fx, want_span in ((L[0] + eps, M.kv_span(L, L[0])), (L[-1] - eps, M.kv_span(L, L[-1]))):
+            try:
+                ok = kv.valid([fx]) is True and kv.span(fx) == want_span   # (mult() merges within 1e-9 by design)
+            except Exception as e:  # noqa
+                ok = False
+            if not ok:
+                ctx.fail("query-mismatch", "just-inside", "a node 1e-20 inside the end %s is not answered like an interior point" % M.enc(fx))
+        outside = [(L[0] - width / 3 - 1, False), (L[-1] + width / 7 + Fraction(1, 2), False), (L[0] - eps, True), (L[-1] + eps, True)]
+        for fx, exactnode in outside:
+            node = fx if (exactnode or not isf) else float(fx)
+            # valid() first: an implementation that wrongly accepts the node may never return from span()
+            try:
+                if kv.valid([node]) is not False:
+                    ctx.fail("query-mismatch", "outside-valid", "valid([%s]) is not False for a node outside [%s, %s]" % (M.enc(fx), M.enc(L[0]), M.enc(L[-1])))
+            except core_Violation:
+                raise
+            except Exception as e:  # noqa
+                ctx.fail("query-mismatch", "outside-valid", "valid raised %s" % type(e).__name__)
             for fn in (kv.span, kv.mult):
                 try:
                     r = fn(node)
@@ -567,11 +586,6 @@ class KVEngine:
                              % (fn.__name__, M.enc(fx), type(e).__name__))
                     continue
                 ctx.fail("query-mismatch", "outside-accepted", "%s(%s) returned %r for a node outside" % (fn.__name__, M.enc(fx), r))
-            try:
-                if kv.valid([node]) is not False:
-                    ctx.fail("query-mismatch", "outside-valid", "valid([%s]) is not False" % M.enc(fx))
-            except Exception as e:  # noqa
-                ctx.fail("query-mismatch", "outside-valid", "valid raised %s" % type(e).__name__)
         # sequence form and indexing
         seq = [x for x, _ in probes[:4]]
         try:
@@ -602,6 +616,12 @@ class KVEngine:
             # pool-wide invariants
             for s, kv in enumerate(pool):
                 if kv is None:
+                    continue
+                if self.too_close(kv):
+                    # the library deliberately identifies knots closer than 1e-6 (knots, |) / 1e-9 (mult); vectors whose
+                    # distinct knots come that close are outside the explored space (DESIGN section 5) and are retired
+                    ctx.count("slot_retired_knots_too_close")
+                    pool[s] = None
                     continue
                 L = self.check_vector(ctx, kv, J03, "after-" + kind)
                 if L is None:
@@ -638,6 +658,17 @@ class KVEngine:
                         ctx.fail("interference", kind, "slot %d changed although step %d (%s) did not operate on it"
                                  % (s, step, kind))
             ctx.log(kind, outcome.get("res", "?"), [None if kv is None else len(kv) for kv in pool])
+
+    @staticmethod
+    def too_close(kv, limit=1e-4):
+        try:
+            L = [M.Fr(x) for x in list(kv)]
+        except (TypeError, ValueError):
+            return False
+        ks = M.kv_knots(L) if all(a <= b for a, b in zip(L, L[1:])) else None
+        if not ks or len(ks) < 2:
+            return False
+        return min(b - a for a, b in zip(ks, ks[1:])) < Fraction(limit)
 
     # ----- generic "mutating call" wrapper ------------------------------
     def mutate(self, ctx, op, kv, call, must_raise, judge, label, transition=True):
@@ -1053,13 +1084,13 @@ class KVEngine:
         if not enabled or len(kv) > 24:
             return None
         L = self.exact_list(kv)
-        if any(isinstance(x, float) for x in list(kv)):
-            return None
+        if not all(isinstance(x, Fraction) for x in list(kv)):
+            return None     # int knots evaluate through int/int = float division: only all-Fraction vectors are exact
         ks = M.kv_knots(L)
         us = [ks[0], ks[-1], (ks[0] + ks[1]) / 2, (ks[-2] + ks[-1]) * Fraction(1, 3) + ks[-2] * Fraction(1, 3)]
         us = [u for u in us if ks[0] <= u <= ks[-1]]
         try:
-            f = self.Function(copy.deepcopy(kv))
+            f = self.Function(kv)    # built on the very object that is about to be transformed (Function aliases it)
             vals = [tuple(M.Fr(v) for v in f(u)) for u in us]
         except Exception:  # noqa  (C02 territory; the by-product is simply dropped)
             return None
@@ -1091,18 +1122,32 @@ class KVEngine:
                 if abs(float(y - want)) > 1e-12 * max(1.0, abs(float(want)), abs(float(s * x)), abs(float(a))):
                     ctx.fail("affine-image", label + "-float", "knot %r mapped to %r, expected %r" % (float(x), float(y), float(want)))
                     return
-        if basis0 is not None and exact:
+        # the distinct knots reported by the object are the affine image of the distinct knots before
+        if self.too_close(kv):
+            return
+        try:
+            got = [M.Fr(x) for x in kv.knots]
+        except Exception as e:  # noqa
+            got = None
+        want_knots = M.kv_knots(post)
+        if got != want_knots:
+            ctx.fail("affine-image", label + "-knots-query", "after %s .knots = %s but the element list has distinct knots %s"
+                     % (label, None if got is None else [M.enc(x) for x in got], [M.enc(x) for x in want_knots]))
+            return
+        if basis0 is not None and exact and all(isinstance(x, Fraction) for x in raw):
             us, vals = basis0
             ctx.oracle("reparametrisation-invariance")
             try:
-                f = self.Function(copy.deepcopy(kv))
+                f = self.Function(kv)
                 for u, v0 in zip(us, vals):
                     v1 = tuple(M.Fr(v) for v in f(s * u + a))
                     if v1 != v0:
                         ctx.fail("reparametrisation", label, "basis values changed under the affine map at u=%s" % M.enc(u))
                         return
+            except core_Violation:
+                raise
             except Exception as e:  # noqa
-                ctx.count("reparametrisation_dropped")
+                ctx.fail("reparametrisation", label + "-raises", "evaluating the basis on the transformed vector raised %s: %s" % (type(e).__name__, e))
 
     def op_convert(self, op, ctx, cfg, J03, J18):
         t, kv = self.target(op)
